@@ -234,7 +234,8 @@ def build_redo_bin():
 
 def _ood_failures(limit=None):
     """Bounded: every order of the names a/m/z on a three-target chain top -> mid -> leaf (leaf reads a source), built once,
-    then every subset of the three target files deleted, or the source edited.  Checked on the real binaries: redo-ood lists
+    then every subset of the three target files deleted, or the source edited, or nothing touched but the leaf's script calls
+    redo-always.  Checked on the real binaries: redo-ood lists
     nothing right after the full build; afterwards every known target that `redo-ifchange <t>` (run on a copy of the
     project) really rebuilds is listed by redo-ood.  -> (failures, n_histories) or None"""
     import itertools
@@ -251,7 +252,7 @@ def _ood_failures(limit=None):
     try:
         for names in itertools.permutations(['a', 'm', 'z']):
             top, mid, leaf = names
-            ops = [('delete', sub) for k in range(0, 4) for sub in itertools.combinations(names, k)] + [('edit', ())]
+            ops = [('delete', sub) for k in range(0, 4) for sub in itertools.combinations(names, k)] + [('edit', ()), ('always', ())]
             for op, arg in ops:
                 if limit is not None and n >= limit:
                     return fails, n
@@ -261,7 +262,7 @@ def _ood_failures(limit=None):
                     """replay the history in a fresh directory (stamps hold inode and ctime, so a copy would look edited)"""
                     proj = os.path.join(work, 'p%d%s' % (n, tag))
                     os.makedirs(proj)
-                    open(os.path.join(proj, leaf + '.do'), 'w').write('redo-ifchange src\necho ran >>%s.ran\ncat src\n' % leaf)
+                    open(os.path.join(proj, leaf + '.do'), 'w').write(('redo-always\n' if op == 'always' else '') + 'redo-ifchange src\necho ran >>%s.ran\ncat src\n' % leaf)
                     open(os.path.join(proj, mid + '.do'), 'w').write('redo-ifchange %s\necho ran >>%s.ran\ncat %s\n' % (leaf, mid, leaf))
                     open(os.path.join(proj, top + '.do'), 'w').write('redo-ifchange %s\necho ran >>%s.ran\ncat %s\n' % (mid, top, mid))
                     open(os.path.join(proj, 'src'), 'w').write('v1\n')
@@ -272,15 +273,15 @@ def _ood_failures(limit=None):
                     if op == 'delete':
                         for t in arg:
                             os.unlink(os.path.join(proj, t))
-                    else:
+                    elif op == 'edit':
                         open(os.path.join(proj, 'src'), 'w').write('v2 longer\n')
                     return proj, fresh
                 hist = 'chain %s -> %s -> %s -> src; redo %s' % (top, mid, leaf, top)
-                hist += ('; rm ' + ' '.join(arg) if arg else '') if op == 'delete' else '; edit src'
+                hist += ('; rm ' + ' '.join(arg) if arg else '') if op == 'delete' else ('; edit src' if op == 'edit' else ' (%s.do calls redo-always)' % leaf)
                 proj, fresh = history('')
                 if proj is None:
                     continue
-                if fresh:
+                if fresh and op != 'always':
                     fails.append(dict(input='chain %s -> %s -> %s -> src; redo %s; redo-ood' % (top, mid, leaf, top), observed=fresh,
                                       clause='redo-ood lists nothing right after a successful full build'))
                 listed = set(l for l in run(['redo-ood'], proj).stdout.split() if l)
@@ -358,6 +359,24 @@ def _names_failures(limit=None):
                     if not os.path.exists(os.path.join(proj, c)):
                         fails.append(dict(input=hist, observed='%s was asked for and does not exist' % c, clause='the file that was asked for is the one that is built'))
             shutil.rmtree(proj, ignore_errors=True)
+        # the project directory itself entered through a symbolic link, as an interactive `cd` leaves it ($PWD logical)
+        n += 1
+        proj = os.path.join(work, 'proj-1.0')
+        os.makedirs(proj)
+        os.symlink('proj-1.0', os.path.join(work, 'proj'))
+        open(os.path.join(proj, 'default.gen.do'), 'w').write('echo made\n')
+        link = os.path.join(work, 'proj')
+        r1 = subprocess.run(['redo', '--no-log', 'x.gen'], cwd=link, env=dict(env, PWD=link), capture_output=True, text=True, timeout=60)
+        r2 = subprocess.run(['redo', '--no-log', 'x.gen'], cwd=proj, env=dict(env, PWD=proj), capture_output=True, text=True, timeout=60)
+        hist = 'proj -> proj-1.0; (cd proj; PWD=<logical>; redo x.gen); (cd proj-1.0; redo x.gen)'
+        if r1.returncode != 0 or r2.returncode != 0:
+            fails.append(dict(input=hist, observed='exit %d / %d: %s' % (r1.returncode, r2.returncode, (r1.stderr + r2.stderr).strip()[-200:]), clause='every spelling of a file is accepted and names that file'))
+        else:
+            db = sqlite3.connect(os.path.join(proj, '.redo', 'db.sqlite3'))
+            rows = sorted(r[0] for r in db.execute("select name from Files where name like '%.gen'"))
+            db.close()
+            if rows != ['x.gen']:
+                fails.append(dict(input=hist, observed='records: %s' % rows, clause='one record per file, under its physical name (the base is a physical directory)'))
     finally:
         shutil.rmtree(work, ignore_errors=True)
     return fails, n
@@ -492,6 +511,39 @@ def _contend_failures():
         shutil.rmtree(work, ignore_errors=True)
     return fails, 2
 
+
+def _stamp_pipe_failures():
+    """Bounded: redo-stamp fed through a pipe in two pieces (0.3 s apart), on the real binaries: the recorded checksum is
+    the SHA-1 of ALL the data, for 3 data sets that differ only in the second piece.  -> (failures, n) or None"""
+    import hashlib, sqlite3
+    bindir = build_redo_bin()
+    if not bindir:
+        return None
+    env = {k: v for k, v in os.environ.items() if not k.startswith('REDO') and k != 'MAKEFLAGS'}
+    env['PATH'] = bindir + ':' + env.get('PATH', '')
+    work = tempfile.mkdtemp(prefix='redo-verif-stamp.', dir='/var/tmp')
+    fails, n = [], 0
+    try:
+        for second in ('two', 'TWO', 'two and more'):
+            n += 1
+            proj = os.path.join(work, 'p%d' % n)
+            os.makedirs(proj)
+            open(os.path.join(proj, 't.do'), 'w').write('( printf "piece one\\n"; sleep 0.3; printf "%s\\n" ) | redo-stamp\necho built\n' % second)
+            r = subprocess.run(['redo', '--no-log', 't'], cwd=proj, env=env, capture_output=True, text=True, timeout=60)
+            if r.returncode != 0:
+                continue
+            db = sqlite3.connect(os.path.join(proj, '.redo', 'db.sqlite3'))
+            row = db.execute("select csum from Files where name='t'").fetchone()
+            db.close()
+            want = hashlib.sha1(('piece one\n%s\n' % second).encode()).hexdigest()
+            if not row or row[0] != want:
+                fails.append(dict(input='t.do: ( printf "piece one\\n"; sleep 0.3; printf "%s\\n" ) | redo-stamp' % second,
+                                  observed='recorded checksum %s, SHA-1 of the whole input %s' % (row[0] if row else None, want),
+                                  clause='the checksum redo-stamp records is the digest of all of its standard input'))
+    finally:
+        shutil.rmtree(work, ignore_errors=True)
+    return fails, n
+
 # ---------------------------------------------------------------- interface used by run.py
 def search(prop, violations, tier, seed):
     """attach a concrete failing input to a reported violation, if a probe covers its function"""
@@ -560,6 +612,13 @@ def conformance(prop, unit_names, pins_changed, labels_props):
                                 msg='clause fails on the real binaries for a concrete history (bounded probe contend)', where=REPO + '/src/builder.rs:run', site=None,
                                 text=h['clause'], rendered=json.dumps(h, indent=1), inputs=[h['input']], fn='run_body',
                                 label='run.start_holds_kernel_lock' if h['prop'] == 'C06' else 'run.record_read_under_lock', props=[prop]))
+    if 'gluebins' in unit_names and prop in ('C03', 'C01'):
+        r = _stamp_pipe_failures()
+        if r and r[0]:
+            hits = r[0]
+            out.append(dict(oid='gluebins/stamp_digest/stamp.digest_covers_the_whole_input', msg='clause fails on the real binaries for a concrete input (bounded probe stamp-pipe, %d inputs)' % r[1],
+                            where=REPO + '/src/bin/redo/stamp.rs:run', site=None, text=hits[0]['clause'], rendered=json.dumps(hits[:6], indent=1),
+                            inputs=[h['input'] for h in hits], fn='stamp_digest', label='stamp.digest_covers_the_whole_input', props=[prop]))
     if 'tokens' in unit_names and prop == 'C08':
         r = _cheatpipe_failures()
         if r and r[0]:
@@ -577,7 +636,7 @@ def conformance(prop, unit_names, pins_changed, labels_props):
                     out.append(dict(oid='%s/%s/%s' % (unit, fn_, label), msg='contract clause fails on the real code for a concrete input (probe %s)' % probe_,
                                     where=REPO + where, site=None, text=hits[0]['clause'], rendered=json.dumps(hits[:6], indent=1),
                                     inputs=[h['input'] for h in hits], fn=fn_, label=label, props=props))
-    if 'queries' in unit_names and prop == 'C17':
+    if ('queries' in unit_names or 'dbmode' in unit_names) and prop == 'C17':
         r = _ood_failures()
         if r and r[0]:
             hits = r[0]
